@@ -19,7 +19,9 @@ EXTENDS Naturals, Sequences, FiniteSets, TLC
 Bases == <<
   <<"text", "int", "sel1", "selm", "begin_group", "text", "begin_repeat", "int", "calc", "end_repeat", "end_group",
     "note", "photo", "range", "begin_repeat", "sel1", "end_repeat">>,
-  <<"begin_group", "begin_group", "text", "sel1", "end_group", "int", "end_group", "calc", "selm">> >>
+  <<"begin_group", "begin_group", "text", "sel1", "end_group", "int", "end_group", "calc", "selm">>,
+  \* a repeat holding groups: rows whose enclosing repeat is not their parent
+  <<"text", "begin_repeat", "begin_group", "text", "begin_group", "int", "end_group", "end_group", "calc", "end_repeat", "sel1", "selm">> >>
 ChoiceLists == <<"L", "L", "L", "M", "M">>
 MaxBlanks == 2
 
@@ -82,6 +84,9 @@ Cat ==
   ("range_nan"               :> M({"range"}, "survey", FALSE, "kind")) @@
   ("big_image_without_image" :> M({"text"}, "survey", FALSE, "kind")) @@
   ("save_to_without_entities":> M({"text"}, "survey", FALSE, "kind")) @@
+  ("save_to_in_repeat"       :> M({"text", "int", "calc"}, "survey", FALSE, "row")) @@      \* (only at sites below a repeat, at any depth)
+  ("missing_type_label_only" :> M(Visible, "survey", FALSE, "row")) @@                      \* neither type nor name, a label only
+  ("missing_type_name_only"  :> M(Visible, "survey", FALSE, "row")) @@
   ("no_survey_sheet"         :> M({}, "form", FALSE, "kind")) @@
   ("no_choices_sheet"        :> M({}, "form", FALSE, "kind")) @@
   ("omit_instanceid_with_key":> M({}, "form", FALSE, "kind")) @@
@@ -108,11 +113,15 @@ Cat ==
   ("bg_geopoint_ambiguous_trigger" :> M({}, "form", FALSE, "ident"))
 Muts == DOMAIN Cat
 
+\* row i lies below an open repeat (its parent or any ancestor)
+OpenAt(b, j, i) == j < i /\ Bases[b][j] \in Begin /\ ~\E k \in (j + 1)..(i - 1) : Bases[b][k] \in End /\ Depth(b, k) = Depth(b, j) + 1
+InRepeat(b, i) == \E j \in 1..(i - 1) : Bases[b][j] = "begin_repeat" /\ OpenAt(b, j, i)
 \* an end row qualifies as top-level when it closes a top-level section (depth 1 in front of it)
 TopOK(b, i) == IF Bases[b][i] \in End THEN Depth(b, i) = 1 ELSE Depth(b, i) = 0
 
 Applicable(b, m, i) ==
   CASE Cat[m].sheet = "survey"  -> i \in 1..Len(Bases[b]) /\ Bases[b][i] \in Cat[m].on /\ (Cat[m].top => TopOK(b, i))
+                                     /\ (m = "save_to_in_repeat" => InRepeat(b, i))
     [] Cat[m].sheet = "choices" -> i \in 1..Len(ChoiceLists) /\ ChoiceLists[i] \in Cat[m].on
     [] OTHER                    -> i = 0
 
